@@ -80,10 +80,11 @@ Definition cval_eqb (x y : cval) : bool :=
   | _, _ => false
   end.
 
-(* statvfs/fstatvfs decode the extended reply themselves: 11 uint64 and nothing else *)
+(* statvfs/fstatvfs decode the extended reply themselves: 11 uint64 and nothing else; a body of another
+   length is reported as SFTPBadMessage *)
 Definition post_ext (k : hkey) (r : res cval) : res cval :=
   match k, r with
-  | HExt _, Ok (VExt p) => if Z.of_nat (length p) =? 88 then r else Err EDecode
+  | HExt _, Ok (VExt p) => if Z.of_nat (length p) =? 88 then r else Err (ESftp FX_BAD_MESSAGE)
   | _, _ => r
   end.
 
